@@ -273,6 +273,7 @@ def run(ctx):
         mo = cq.eval_term('c18_bad', HEADER, 'match %s with (a,n,p,j,zs,ls,_) => run_graph a n p j zs ls end' % cases[i])
         ctx.disagree('graph kernel %s' % case.get('alg'), case, mo, out)
     public(ctx)
+    many_colours(ctx)
 
 
 def public(ctx):
@@ -310,6 +311,7 @@ def public(ctx):
             A = gen.unsorted_copy(A, rng)
             A.indptr, A.indices = A.indptr.astype(np.int32), A.indices.astype(np.int32)
             base = dict(base, storage='unsorted column indices')
+        A_before = (A.toarray().copy(), A.nnz)          # the caller's matrix: no graph routine may change it (self loops included)
         for algo, k in (('serial', None), ('parallel', None), ('parallel', 1), ('parallel', 2), ('parallel', 3)):
             x = pg.maximal_independent_set(A, algo=algo, k=k)
             check_mis(ctx, 'maximal_independent_set/%s/k=%s' % (algo, k), n, adj, x.tolist(), k or 1, dict(base, algo=algo, k=k))
@@ -339,13 +341,19 @@ def public(ctx):
             Aws = sp.csr_array(Aw * sc)
             ds, ms, ps_ = pg.bellman_ford(Aws, centers)
             check_bf(ctx, 'bellman_ford/scaled', n, Aws, centers, ds, ms, ps_, dict(base, centers=centers, weights=w, scale=sc))
+        if A.nnz != A_before[1] or not np.array_equal(A.toarray(), A_before[0]):
+            ctx.fail('graph-routines/input-modified', 'a graph routine changed the matrix it was given (nnz %d -> %d)' % (A_before[1], A.nnz), base)
+            A = sp.csr_array(A_before[0])
         # reverse Cuthill-McKee: a symmetric permutation of the input
-        Acsr = sp.csr_array(A)
+        Acsr = sp.csr_array(A).copy()
+        Arcm_in = Acsr.copy()
         try:
-            P = pg.symmetric_rcm(Acsr)
+            P = pg.symmetric_rcm(Arcm_in)
         except Exception as e:   # noqa
             ctx.fail('symmetric_rcm/raises' + ('' if nc == 1 else '/disconnected'), repr(e), base)
             continue
+        if Arcm_in.nnz != Acsr.nnz or not np.array_equal(Arcm_in.toarray(), Acsr.toarray()):
+            ctx.fail('symmetric_rcm/input-modified', 'the matrix handed to symmetric_rcm changed (nnz %d -> %d)' % (Acsr.nnz, Arcm_in.nnz), base)
         if not is_sym_perm(Acsr.toarray(), P.toarray()):
             ctx.fail('symmetric_rcm' + ('' if nc == 1 else '/disconnected'),
                      'result is not a symmetric permutation of the input (nnz %d vs %d)' % (P.nnz, Acsr.nnz), base)
@@ -363,6 +371,22 @@ def public(ctx):
             ctx.count('public:rcm-nonsymmetric-values')
         except Exception as e:   # noqa
             ctx.fail('symmetric_rcm/nonsymmetric-values/raises', repr(e), base)
+
+
+def many_colours(ctx):
+    """graphs that need more than 64 colours (complete graphs, a complete graph plus pendant vertices)"""
+    import pyamg.graph as pg
+    for nK in (66, 70):
+        edges = [(i, j) for i in range(nK) for j in range(i + 1, nK)] + [(0, nK), (1, nK + 1)]
+        n = nK + 2
+        A = gen.graph_csr(n, edges)
+        adj = adjacency(n, A.indptr, A.indices)
+        for method in ('MIS', 'JP', 'LDF'):
+            np.random.seed(ctx.seed + nK)
+            col = pg.vertex_coloring(A, method=method)
+            ctx.case(('many-colours', nK, method), True)
+            ctx.count('public:many-colours')
+            check_coloring(ctx, 'vertex_coloring/' + method, n, adj, col, dict(graph='K_%d plus two pendant vertices' % nK, method=method))
 
 
 def is_sym_perm(A, B):
